@@ -306,6 +306,11 @@ def families(tier, seed):
     def exec_brute(case, obs):
         qa, qb, k, px, rtype = case
         A, B = pick(qa), pick(qb)
+        if rtype.endswith("|ids-restart"):
+            # subtomogram numbers that restart in every tomogram: in the second list the tomogram-7 particles carry numbers that
+            # also occur in tomogram 3 (the first list keeps unique numbers, they key the reported rows)
+            rtype = rtype.split("|")[0]
+            B = [dict(r, subtomo_id={13.0: 7.0, 2.0: 41.0}.get(r["subtomo_id"], r["subtomo_id"])) for r in B]
         if not common_tomogram(A, B):
             obs.skipped = True
             obs.fire("disjoint-not-judged")
@@ -418,6 +423,8 @@ def families(tier, seed):
     import os
     if os.environ.get("VERIF_C18_ROTATION_ALL") == "1":
         return [rt_all, brute, rigid]  # (row-index variants are not needed for this diagnostic family)
+    ids_restart = Family("neighbour-numbers-restart-per-tomogram", Product(subsets(range(n), 1, 2), nsub, [2], [1.0], ["angular_distance|ids-restart"]),
+                         exec_brute, describe=describe_brute, expect=("neighbour-id", "relative-orientation-matrix", "angular-distance"))
     from ..motlgen import with_row_index_kinds
     brute_idx = with_row_index_kinds(brute, select=lambda c: c[2] == 2 and c[3] == 1.0, kinds=("gapped", "reversed", "repeated"), expect=("neighbour-id", "distance-value", "offset-particle-frame", "angular-distance"))
-    return [brute, brute_idx, rigid]
+    return [brute, brute_idx, ids_restart, rigid]
